@@ -98,6 +98,10 @@ def run_property(prop, tier, repo=None, variants=None, verbose=True, replay=None
         if repo != build.REPO and not os.environ.get("VERIF_KEEP_CACHE"):
             import shutil
             shutil.rmtree(d, ignore_errors=True)   # scratch copies leave no cache behind
+            try:
+                os.rmdir(os.path.dirname(d))
+            except OSError:
+                pass
     return finish(prop, tier, mod, reports, stats, t0, repo, verbose)
 
 
